@@ -66,6 +66,7 @@ func c01Attach(t *rapid.T, h *history) {
 // that push the count over 100: whatever the removal of a candidate deletes from the state tree, the
 // coins of everybody else must still be there.
 func TestC01CandidateLimit(t *testing.T) {
+	defer checksDividedBy(3)() // a block of a 100-candidate world costs ten times an ordinary one
 	rapid.Check(t, func(t *rapid.T) {
 		wo := sim.DefaultOpts()
 		wo.MinExtraCands, wo.MaxExtraCands = 86, 95
